@@ -131,72 +131,84 @@ def stage_buffered(stg):
     return any(p["name"] == "O2(g)" for p in (stg.get("eq") or {}).get("phases", []))
 
 
+NON_SOLUTE = {"H", "O", "e", "X", "Hfo_w", "Hfo_s"}
+
+
+def _els(d):
+    return tuple(sorted(set(d) - NON_SOLUTE))
+
+
 def observables(m):
-    """list of (expr, kind, poised_only); kinds: log, rel, ext, abs, cb, alk, psi"""
+    """list of (expr, kind, poised_only, elements); kinds: pH, log, rel, ext, abs, cb, alk, psi, sigma;
+    elements = base elements whose mass balance the value depends on (their solver tolerance enters the comparison)"""
     db = dbparse.load(m["db"])
     written, base = system_elements(m)
     always = closure(db, written, base, False)
     poised = closure(db, written, base, True)
-    obs = [('-LA("H+")', "pH", False), ('-LA("e-")', "log", True), ("MU", "rel", False), ('LA("H2O")', "log", False),
-           ("TC", "abs", False), ("RHO", "rel", False), ("SC", "rel", False), ("ALK", "alk", False),
-           ('TOT("water")', "ext", False), ("SOLN_VOL", "ext", False), ("CHARGE_BALANCE", "cb", False)]
+    obs = [('-LA("H+")', "pH", False, ()), ('-LA("e-")', "log", True, ()), ("MU", "rel", False, ()),
+           ('LA("H2O")', "log", False, ()), ("TC", "abs", False, ()), ("RHO", "rel", False, ()), ("SC", "rel", False, ()),
+           ("ALK", "alk", False, ()), ('TOT("water")', "ext", False, ()), ("SOLN_VOL", "ext", False, ()),
+           ("CHARGE_BALANCE", "cb", False, ())]
     for el in written:
         if el != "Alkalinity":
-            obs.append(('TOT("%s")' % el, "rel", False))
+            obs.append(('TOT("%s")' % el, "rel", False, (el.split("(")[0],)))
     for el in base:
         if el not in written:
-            obs.append(('TOT("%s")' % el, "rel", False))
-        obs.append(('TOTMOLE("%s")' % el, "ext", False))
-        obs.append(('SYS("%s")' % el, "ext", False))
+            obs.append(('TOT("%s")' % el, "rel", False, (el,)))
+        obs.append(('TOTMOLE("%s")' % el, "ext", False, (el,)))
+        obs.append(('SYS("%s")' % el, "ext", False, (el,)))
     nsp = 0
     for s in db.species.values():
         if s.name in poised and s.name not in ("H2O", "e-") and nsp < 60:
             po = s.name not in always
-            obs.append(('MOL("%s")' % s.name, "rel", po))
-            obs.append(('LA("%s")' % s.name, "log", po))
+            obs.append(('MOL("%s")' % s.name, "rel", po, _els(s.elements)))
+            obs.append(('LA("%s")' % s.name, "log", po, _els(s.elements)))
             nsp += 1
     nph = 0
     for p in db.phases.values():
         names = [n for _, n in p.reaction]
         if nph < 40 and all(n in poised for n in names):
-            obs.append(('SI("%s")' % p.name, "log", not all(n in always for n in names)))
+            obs.append(('SI("%s")' % p.name, "log", not all(n in always for n in names), _els(p.elements)))
             nph += 1
     for stg in (m, m.get("st2") or {}):
         for p in (stg.get("eq") or {}).get("phases", []):
-            e = ('EQUI("%s")' % p["name"], "ext", False)
+            ph = db.phase(p["name"])
+            e = ('EQUI("%s")' % p["name"], "ext", False, _els(ph.elements) if ph else ())
             if e not in obs:
                 obs.append(e)
         for r in (stg.get("kin") or {}).get("rates", []):
-            obs.append(('KIN("%s")' % r["name"], "ext", False))
+            obs.append(('KIN("%s")' % r["name"], "ext", False, _els(_formula_elements(r["formula"]))))
         g = stg.get("gas")
         if g:
             # the pressure of a fixed-volume Peng-Robinson gas phase is reported from a damped molar-volume iterate
             # (model.cpp calc_gas_pressures: V_m = (V_m_prev + V_m) / 2) whose lag is not part of the convergence test:
             # observed scatter 6e-8 relative while the moles agree to 1e-12 -> only the moles are results there
             for c in g["comps"]:
-                obs.append(('GAS("%s")' % c["g"], "ext", False))
+                ph = db.phase(c["g"])
+                obs.append(('GAS("%s")' % c["g"], "ext", False, _els(ph.elements) if ph else ()))
             if g["fixed"] == "pressure":
-                obs.append(("GAS_P", "rel", False))
-                obs.append(("GAS_VM", "rel", False))
+                obs.append(("GAS_P", "rel", False, ()))
+                obs.append(("GAS_VM", "rel", False, ()))
                 for c in g["comps"]:
-                    obs.append(('PR_P("%s")' % c["g"], "rel", False))
-                    obs.append(('PR_PHI("%s")' % c["g"], "rel", False))
+                    ph = db.phase(c["g"])
+                    obs.append(('PR_P("%s")' % c["g"], "rel", False, _els(ph.elements) if ph else ()))
+                    obs.append(('PR_PHI("%s")' % c["g"], "rel", False, ()))
         if stg.get("ex"):
             for s in db.exchange_species.values():
                 names = [n for _, n in s.lhs]
                 if s.name != "X-" and all(n in always or n == "X-" for n in names):
-                    obs.append(('MOL("%s")' % s.name, "rel", False))
-                    obs.append(('LA("%s")' % s.name, "log", False))
+                    obs.append(('MOL("%s")' % s.name, "rel", False, _els(s.elements)))
+                    obs.append(('LA("%s")' % s.name, "log", False, _els(s.elements)))
         if stg.get("su"):
             k = 0
             for s in db.surface_species.values():
                 names = [n for _, n in s.lhs]
                 if all(n in always or n.startswith("Hfo_") for n in names) and k < 40:
-                    obs.append(('MOL("%s")' % s.name, "rel", False))
+                    obs.append(('MOL("%s")' % s.name, "rel", False, _els(s.elements)))
                     k += 1
-            obs.append(('EDL("psi", "Hfo")', "psi", False))
-            obs.append(('EDL("sigma", "Hfo")', "sigma", False))
-            obs.append(('EDL("charge", "Hfo")', "cb", False))
+            obs.append(('EDL("psi", "Hfo")', "psi", False, ()))
+            obs.append(('EDL("sigma", "Hfo")', "sigma", False, ()))
+            obs.append(('EDL("charge", "Hfo")', "cb", False, ()))
     return obs
 
 
@@ -244,14 +256,15 @@ def close(a, b, kind, ext, ctxv):
     if a == b:
         return True, 0.0
     nu = ctxv["nu"]
+    eps = ctxv.get("eps_el", 0.0)        # solver tolerance of the mass balances of the elements the value depends on
     if kind == "pH":
-        tol = REL * ctxv["kappa"]
+        tol = ctxv["tol_pH"]
     elif kind == "log":
-        tol = REL + 12.0 * nu            # |H+ stoichiometry| of a reaction in the databases is at most 10-12
+        tol = REL + 12.0 * nu + eps / 2.302585   # |H+ stoichiometry| of a reaction in the databases is at most 10-12
     elif kind == "abs":
         tol = REL
     else:
-        rel = REL + 28.0 * nu            # d ln m = ln(10) n dpH
+        rel = REL + 28.0 * nu + eps      # d ln m = ln(10) n dpH
         if kind == "rel":
             tol = rel * max(abs(a), abs(b), 1e-12)
         elif kind == "alk":
@@ -414,26 +427,37 @@ def check_case(case, ctx):
         kgw = va[iw] if isinstance(va[iw], float) else 1.0
         mu = va[imu] if isinstance(va[imu], float) else 0.0
         row_ext = 1.0 if keyB[2] in copies else ext
-        ctxv = {"mu": mu, "kgw": kgw, "ext_floor": 1e-3 * inventory + 1e-6 * kgw, "kappa": 1.0, "nu": 0.0}
+        kgwb = vb[iw] if isinstance(vb[iw], float) else kgw
+        ctxv = {"mu": mu, "kgw": kgw, "ext_floor": 1e-3 * inventory + 1e-6 * kgw, "tol_pH": REL, "nu": 0.0}
+        # Solver tolerance (model.cpp residuals()): a mass balance counts as converged when its residual is below
+        # max(convergence_tolerance x n, sqrt(n x MIN_TOTAL)) with n the moles of the element and MIN_TOTAL = 1e-25 mol,
+        # i.e. a relative uncertainty sqrt(1e-25 / n) of every element total (1e-11 for 1 mmol, 3e-9 for 1e-8 mol), and
+        # - through the charge balance - an uncertainty of about sum |z| sqrt(n_i 1e-25) eq in [H+] where pH is an unknown.
+        kmin = max(min(kgw, kgwb), 1e-300)
+        eps_of = {}
+        for i, o in enumerate(obs):
+            if o[0].startswith("TOTMOLE("):
+                na = abs(va[i]) if isinstance(va[i], float) else 0.0
+                nb = abs(vb[i]) if isinstance(vb[i], float) else 0.0
+                n = min(na, nb)
+                eps_of[o[3][0]] = 1.0 if n < 1e-25 else min(1.0, 5.0 * math.sqrt(1e-25 / n))
         ph_free = state != "i_soln" or any(s["pH_opt"] for s in m["sols"] if s["n"] == keyA[2])
         if ph_free and isinstance(va[ih], float) and isinstance(va[ioh], float):
-            # Where pH is an unknown it follows from the charge balance.  The engine accepts mass-balance residuals of
-            # convergence_tolerance x total on every ion (documented criterion, 1e-13 here), i.e. an uncertainty of about
-            # 1e-13 x (2 mu + |cb|) eq/kgw in the charge sum, against a buffer capacity of at least 2.3 max([H+],[OH-]):
-            # pH is only defined to 1e-13 x S / b (x10 margin); this is added to the property's 1e-8.
-            bcap = max(abs(va[ih]), abs(va[ioh]), 1e-30)
+            bcap = max(abs(va[ih]), abs(va[ioh]), 1e-30)          # buffer capacity >= 2.3 max([H+],[OH-])
             icb = [i for i, o in enumerate(obs) if o[0] == "CHARGE_BALANCE"][0]
             S = 2.0 * mu + (abs(va[icb]) / kgw if isinstance(va[icb], float) and kgw > 0 else 0.0)
-            ctxv["kappa"] = 1.0 + 1e-4 * S / bcap
+            noise = 15.0 * math.sqrt(S * 1e-25 / kmin)              # eq/kgw, margin 5 on 3 sqrt(S kgw 1e-25) / kgw
+            ctxv["tol_pH"] = REL + noise / (2.302585 * bcap)
             # the accepted pH difference of this row is a nuisance parameter of every pH-dependent result
             if isinstance(va[0], float) and isinstance(vb[0], float):
-                ctxv["nu"] = min(abs(va[0] - vb[0]), REL * ctxv["kappa"])
+                ctxv["nu"] = min(abs(va[0] - vb[0]), ctxv["tol_pH"])
         # a gas phase that has dissolved completely has no composition: its pressures are not results
         gas_n = sum(abs(va[i]) for i, o in enumerate(obs) if o[0].startswith("GAS(") and isinstance(va[i], float))
         gas_gone = gas_n <= 1e-9 * max(kgw, 1e-30)
-        for i, (expr, kind, poised_only) in enumerate(obs):
+        for i, (expr, kind, poised_only, oels) in enumerate(obs):
             if poised_only and not poised:
                 continue
+            ctxv["eps_el"] = 3.0 * sum(eps_of.get(e, 0.0) for e in oels)
             if gas_gone and expr.startswith(("PR_P", "PR_PHI", "GAS_P", "GAS_VM")):
                 continue
             a, b = va[i], vb[i]
@@ -468,8 +492,6 @@ def check_case(case, ctx):
         classes.append("dev<=1e%d_tol" % max(-8, min(0, int(math.ceil(math.log10(worst))))))
     if worst_ph > 0:
         classes.append("pHdev<=1e%d_tol" % max(-8, min(0, int(math.ceil(math.log10(worst_ph))))))
-    if m["kind"] == "kin":
-        ctx.event("excl:MIX+KINETICS_never_generated(known crash)")
     uu = units_used(m, specA) | units_used(m, specB)
     differ = tA != tB
     nt = differ and n_constituents(m) >= 3
